@@ -53,6 +53,17 @@ type Val struct {
 	Payload *Val     // interfaces: boxed value when known on this path
 	ArrLen  int      // slices of a whole fixed-size array created on this path (variadic arguments): its length
 	ArrBase string
+	ArrOff  int      // offset of the slice inside that array
+	HasArr  bool     // ArrLen/ArrBase/ArrOff are meaningful (ArrLen may be 0)
+	Refl    *ReflVal // reflect.Type / reflect.Value values known on this path
+	Sub     map[int]Val // struct values: fields whose value is known structurally (dynamic types of interface fields, ...)
+}
+
+// ReflVal: the little of package reflect that decode(*Fcall) uses, tracked structurally.
+type ReflVal struct {
+	Kind string // type | ptr | elem
+	T    types.Type
+	A    *Addr
 }
 
 type deferred struct {
@@ -74,6 +85,9 @@ type frame struct {
 	allocs []*ssa.Alloc
 	decs   map[*ssa.BasicBlock]string
 	curLine, curText string
+	unrolled map[*ssa.BasicBlock]int
+	loopEntry map[*ssa.BasicBlock]map[string]string // heap snapshot at the first arrival at a loop head: entry(e) in invariants
+	loopEntryCells map[*ssa.BasicBlock]map[int]Val
 }
 
 // State is one symbolic path.
@@ -100,12 +114,16 @@ type State struct {
 	inflight string
 	assumed  map[string]bool
 	noNames  bool
+	shadow   map[string]shadowEnt // heap id | object | index  ->  structurally known value stored there (copy-on-write)
+	freshLocs map[string]bool     // locations allocated on this path (pairwise distinct objects); shared between clones, names are unique
+	shadowPrecise bool
+	bind     *heapBind // non-nil while an axiom / spec function body is evaluated: heaps are bound variables
 }
 
 var cellCounter int
 
 func (e *Engine) newState() *State {
-	return &State{e: e, cells: map[int]Val{}, cellTy: map[int]types.Type{}, heap: map[string]string{}, heap0: nil, groups: map[string]bool{}}
+	return &State{e: e, cells: map[int]Val{}, cellTy: map[int]types.Type{}, heap: map[string]string{}, heap0: nil, groups: map[string]bool{}, freshLocs: map[string]bool{}}
 }
 
 func (s *State) clone() *State {
@@ -125,6 +143,8 @@ func (s *State) clone() *State {
 	n.heap0 = s.heap0
 	n.groups = s.groups
 	n.promoted, n.encoded, n.closures, n.stale, n.epoch, n.chans, n.assumed = s.promoted, s.encoded, s.closures, s.stale, s.epoch, s.chans, s.assumed
+	n.shadow = s.shadow
+	n.freshLocs = s.freshLocs
 	return n
 }
 
@@ -192,6 +212,20 @@ func (s *State) heapTerm(id, sort string) string {
 		return t
 	}
 	e := s.e
+	if s.bind != nil {
+		// axioms and definitions of spec functions: the heap is a bound variable
+		if e.heapSorts == nil {
+			e.heapSorts = map[string]string{}
+		}
+		if e.heapSorts[id] == "" {
+			e.heapSorts[id] = sort
+		}
+		n := "hb_" + sanitize(id)
+		s.heap[id] = n
+		s.bind.ids = append(s.bind.ids, id)
+		s.bind.sorts = append(s.bind.sorts, sort)
+		return n
+	}
 	if e.heapSorts == nil {
 		e.heapSorts = map[string]string{}
 	}
@@ -214,6 +248,9 @@ func (s *State) heapTerm(id, sort string) string {
 }
 
 func (s *State) setHeap(id, sort, term string) {
+	if !s.shadowPrecise {
+		s.dropShadow(id)
+	}
 	s.heapTerm(id, sort) // make sure initial version is recorded
 	n := s.e.freshName("H_" + sanitize(id))
 	s.declare(n, sort)
@@ -221,7 +258,77 @@ func (s *State) setHeap(id, sort, term string) {
 	s.heap[id] = n
 }
 
+func isLiteralInt(t string) bool {
+	if t == "" {
+		return false
+	}
+	for _, c := range t {
+		if c < '0' || c > '9' {
+			return false
+		}
+	}
+	return true
+}
+
+type heapBind struct {
+	ids, sorts []string
+}
+
+type shadowEnt struct {
+	id, obj, idx string
+	v            Val
+}
+
+func structured(v Val) bool {
+	return v.Dyn != nil || v.Payload != nil || v.Addr != nil || v.Refl != nil || v.HasArr || len(v.Sub) > 0 || v.Clo != nil
+}
+
+// dropShadow forgets structurally known contents of a heap that is havocked or written through an unknown address.
+func (s *State) dropShadow(id string) {
+	if len(s.shadow) == 0 {
+		return
+	}
+	n := map[string]shadowEnt{}
+	for k, v := range s.shadow {
+		if v.id != id {
+			n[k] = v
+		}
+	}
+	s.shadow = n
+}
+
+// shadowWrite records a write of v to (id, obj, idx); entries that may alias the written location are forgotten:
+// another object aliases unless both are allocations of this path; another index aliases unless both are literals.
+func (s *State) shadowWrite(id, obj, idx string, v Val) {
+	if len(s.shadow) == 0 && !structured(v) {
+		return
+	}
+	n := make(map[string]shadowEnt, len(s.shadow)+1)
+	for k, e := range s.shadow {
+		if e.id == id {
+			if e.obj == obj {
+				if e.idx == idx || !(isLiteralInt(e.idx) && isLiteralInt(idx)) {
+					continue
+				}
+			} else if !(s.freshLocs[e.obj] && s.freshLocs[obj]) {
+				continue
+			}
+		}
+		n[k] = e
+	}
+	if structured(v) && (idx == "" || isLiteralInt(idx)) {
+		n[id+"|"+obj+"|"+idx] = shadowEnt{id, obj, idx, v}
+	}
+	s.shadow = n
+}
+
+func (s *State) shadowRead(id, obj, idx string) (Val, bool) {
+	e, ok := s.shadow[id+"|"+obj+"|"+idx]
+	return e.v, ok
+}
+
 func (s *State) havocHeap(id string) {
+	s.dropShadow(id)
 	sort := s.e.heapSorts[id]
 	if sort == "" {
 		return
@@ -282,6 +389,7 @@ func (s *State) newLoc(prefix string) string {
 	s.assume("(> " + l + " 0)")
 	s.assume("(not (select " + a + " " + l + "))")
 	s.setHeap(allocHeap, "(Array Int Bool)", "(store "+a+" "+l+" true)")
+	s.freshLocs[l] = true
 	return l
 }
 
@@ -391,6 +499,11 @@ func (s *State) load(a *Addr) Val {
 		if len(a.Path) == 0 {
 			return cv
 		}
+		if len(a.Path) == 1 {
+			if sv, ok := cv.Sub[a.Path[0]]; ok {
+				return sv
+			}
+		}
 		t, ty := s.project(cv.T, s.cellTy[a.Cell], a.Path)
 		return Val{T: t, Ty: ty}
 	case AObj:
@@ -398,20 +511,46 @@ func (s *State) load(a *Addr) Val {
 			if len(a.Path) == 0 {
 				sv := Val{T: s.name("sv", s.e.sortOf(a.RootTy), s.structFromHeap(a.RootTy, a.Loc)), Ty: a.RootTy}
 				s.assumeAllocated(a.RootTy, sv.T)
+				if len(s.shadow) > 0 {
+					si := s.e.structInfo(a.RootTy)
+					for i := range si.Fields {
+						if fv, ok := s.shadowRead(fieldHeapID(si, i), a.Loc, ""); ok {
+							if sv.Sub == nil {
+								sv.Sub = map[int]Val{}
+							}
+							sv.Sub[i] = fv
+						}
+					}
+				}
 				return sv
 			}
 			si := s.e.structInfo(a.RootTy)
+			if len(a.Path) == 1 {
+				if fv, ok := s.shadowRead(fieldHeapID(si, a.Path[0]), a.Loc, ""); ok {
+					return fv
+				}
+			}
 			fv := s.readField(si, a.Path[0], a.Loc)
 			t, ty := s.project(fv, si.Fields[a.Path[0]].Type(), a.Path[1:])
 			s.assumeAllocated(ty, t)
 			return Val{T: t, Ty: ty}
 		}
 		id := ptrHeapID(a.RootTy)
+		if len(a.Path) == 0 {
+			if fv, ok := s.shadowRead(id, a.Loc, ""); ok {
+				return fv
+			}
+		}
 		h := s.heapTerm(id, "(Array Int "+s.e.sortOf(a.RootTy)+")")
 		t, ty := s.project("(select "+h+" "+a.Loc+")", a.RootTy, a.Path)
 		s.assumeAllocated(ty, t)
 		return Val{T: t, Ty: ty}
 	case AElem:
+		if len(a.Path) == 0 {
+			if sv, ok := s.shadowRead(elemHeapID(a.RootTy), a.Base, a.Idx); ok {
+				return sv
+			}
+		}
 		ev := s.readElem(a.RootTy, a.Base, a.Idx)
 		t, ty := s.project(ev, a.RootTy, a.Path)
 		s.assumeAllocated(ty, t)
@@ -432,6 +571,13 @@ func (s *State) load(a *Addr) Val {
 }
 
 func (s *State) store(a *Addr, v Val) {
+	if a.Kind == AObj || a.Kind == AElem {
+		if v.T == "" {
+			v.T = s.term(v) // may promote cells (writes heaps) before the precise section
+		}
+		s.shadowPrecise = true
+		defer func() { s.shadowPrecise = false }()
+	}
 	switch a.Kind {
 	case ALocal:
 		if l := s.promoted[a.Cell]; l != "" {
@@ -445,21 +591,38 @@ func (s *State) store(a *Addr, v Val) {
 		}
 		cv := s.cells[a.Cell]
 		nt := s.update(cv.T, s.cellTy[a.Cell], a.Path, s.term(v))
-		s.cells[a.Cell] = Val{T: s.name("cv", s.e.sortOf(s.cellTy[a.Cell]), nt), Ty: s.cellTy[a.Cell]}
+		nv := Val{T: s.name("cv", s.e.sortOf(s.cellTy[a.Cell]), nt), Ty: s.cellTy[a.Cell]}
+		if len(cv.Sub) > 0 || structured(v) {
+			nv.Sub = map[int]Val{}
+			for k, x := range cv.Sub {
+				if k != a.Path[0] {
+					nv.Sub[k] = x
+				}
+			}
+			if len(a.Path) == 1 && structured(v) {
+				nv.Sub[a.Path[0]] = v
+			}
+		}
+		s.cells[a.Cell] = nv
 	case AObj:
 		if isStruct(a.RootTy) {
+			si := s.e.structInfo(a.RootTy)
 			if len(a.Path) == 0 {
 				s.structToHeap(a.RootTy, a.Loc, s.term(v))
+				for i := range si.Fields {
+					s.shadowWrite(fieldHeapID(si, i), a.Loc, "", v.Sub[i])
+				}
 				return
 			}
-			si := s.e.structInfo(a.RootTy)
 			i := a.Path[0]
 			if len(a.Path) == 1 {
 				s.writeField(si, i, a.Loc, s.term(v))
+				s.shadowWrite(fieldHeapID(si, i), a.Loc, "", v)
 				return
 			}
 			old := s.readField(si, i, a.Loc)
 			s.writeField(si, i, a.Loc, s.update(old, si.Fields[i].Type(), a.Path[1:], s.term(v)))
+			s.shadowWrite(fieldHeapID(si, i), a.Loc, "", Val{})
 			return
 		}
 		id := ptrHeapID(a.RootTy)
@@ -467,9 +630,19 @@ func (s *State) store(a *Addr, v Val) {
 		h := s.heapTerm(id, sort)
 		nv := s.update("(select "+h+" "+a.Loc+")", a.RootTy, a.Path, s.term(v))
 		s.setHeap(id, sort, "(store "+h+" "+a.Loc+" "+nv+")")
+		if len(a.Path) == 0 {
+			s.shadowWrite(id, a.Loc, "", v)
+		} else {
+			s.shadowWrite(id, a.Loc, "", Val{})
+		}
 	case AElem:
 		old := s.readElem(a.RootTy, a.Base, a.Idx)
 		s.writeElem(a.RootTy, a.Base, a.Idx, s.update(old, a.RootTy, a.Path, s.term(v)))
+		if len(a.Path) == 0 {
+			s.shadowWrite(elemHeapID(a.RootTy), a.Base, a.Idx, v)
+		} else {
+			s.shadowWrite(elemHeapID(a.RootTy), a.Base, a.Idx, Val{})
+		}
 	case AGlobal:
 		id := "G:" + a.Global.Pkg.Pkg.Name() + "." + a.Global.Name()
 		sort := s.e.sortOf(a.RootTy)
